@@ -13,14 +13,17 @@ PROP = "C03"
 LEVEL = "exploration"
 RULE = ("full matrix {given on the command line or not} x {env unbound, unset, set empty, set to a "
         "string} x {default or none} x {optional or required} x {option, multi-option, toggle} x "
-        "environment content pool (option-like strings, `=`, `;`, blanks, non-ASCII, 4 KiB, the 30 toggle "
+        "environment content pool (option-like strings, `=`, `;`, blanks, non-ASCII, 15 ... 70000 bytes, 300 elements, the 30 toggle "
         "words), thorough adds random environment strings and two options sharing one variable; "
         "distinct_nontrivial = distinct (matrix cell, environment content) pairs in which the "
         "environment variable was bound and set non-empty, i.e. the ranking was actually contested")
 
 CONTENT = [b"plain", b"--a=b", b"-5", b"-", b"--", b"---", b"-=", b"a=b", b"=", b"x;y", b";", b"a;", b";;a",
            b"a;;b", b" ", b" x ", b"\xc3\xa4\xff", b"E" * 4096, b"--opt", b"-o", b"--no-tog", b"a\nb",
-           b"-v;--w;x", b"0", b"1", b"a,b", b"x;y,z", b"a:b", b"a b;c d", b"|", b"dflt", b"d1;d2", b"d1", b"3"] + TRUTHY + FALSY
+           b"-v;--w;x", b"0", b"1", b"a,b", b"x;y,z", b"a:b", b"a b;c d", b"|", b"dflt", b"d1;d2", b"d1", b"3",
+           b"F" * 255, b"G" * 256, b"H" * 257, b"a;" + b"L" * 256 + b";b", b"x" * 255 + b";" + b"y" * 300 + b";z",
+           b";".join(b"e%d" % i for i in range(300)), b"S" * 15, b"S" * 16, b"S" * 17, b"B" * 70000,
+           b";" * 300] + TRUTHY + FALSY
 ENVN = optgen.ENVP + b"X"
 
 
